@@ -15,6 +15,10 @@
 #include <type_traits>
 
 #include "vmon.hh"
+#ifdef VSCHED
+#include <optional>
+#include "vsched.hh"
+#endif
 
 namespace dzn
 {
@@ -28,7 +32,13 @@ namespace dzn
     std::thread::id thread_id;
     std::thread worker;
 
+#ifdef VSCHED
+    pump() {}
+    // scheduler builds: the worker is a managed thread started explicitly after set-up
+    void vsched_start() { worker = std::thread([this] { vsched::attach("pump", true); run(); }); worker.detach(); }
+#else
     pump() : worker([this] { run(); }) {}
+#endif
     pump(const pump&) = delete;
     pump(pump&&) = delete;
     ~pump()
@@ -50,6 +60,9 @@ namespace dzn
       for (;;)
       {
         std::pair<long long, std::function<void()>> task;
+#ifdef VSCHED
+        vsched::block_until([this] { return !queue.empty() || !running; }, "pump/idle");
+#endif
         {
           std::unique_lock<std::mutex> l(mutex);
           condition.wait(l, [this] { return !queue.empty() || !running; });
@@ -105,6 +118,12 @@ namespace dzn
   template <typename L, typename = typename std::enable_if<std::is_void<decltype(std::declval<L>()())>::value>::type>
   void shell(dzn::pump& pump, L&& l)
   {
+#ifdef VSCHED
+    bool ready = false;
+    pump([&] { l(); ready = true; });
+    vsched::block_until([&] { return ready; }, "shell/block");
+    return;
+#endif
     std::promise<void> p;
     pump([&] { l(); p.set_value(); });
     vmon_before_blocking_on_pump();
@@ -114,6 +133,12 @@ namespace dzn
   template <typename L, typename = typename std::enable_if<!std::is_void<decltype(std::declval<L>()())>::value>::type>
   auto shell(dzn::pump& pump, L&& l) -> decltype(l())
   {
+#ifdef VSCHED
+    std::optional<decltype(l())> result;
+    pump([&] { result = l(); });
+    vsched::block_until([&] { return result.has_value(); }, "shell/block");
+    return *result;
+#endif
     std::promise<decltype(l())> p;
     pump([&] { p.set_value(l()); });
     vmon_before_blocking_on_pump();
